@@ -5,7 +5,7 @@ import shutil
 from fractions import Fraction
 
 from pv.canon import B, T, Val, outcome, unB
-from props._c19_gen import (CPU, HW, PS, TZ, battery_files, chip_prefix, cpufreq_sysfs, fans_effective, sorted_fan_chips,
+from props._c19_gen import (CPU, HW, PS, TZ, battery_files, chip_prefix, cpufreq_sysfs, sorted_fan_chips,
                             sorted_temp_chips, sorted_zones, visible)
 
 _st = {}
@@ -119,6 +119,17 @@ def snap(impl, model, slack=0):
     return impl
 
 
+def snap_best(r, model, spec, slack=0):
+    """snap to the model's rationals; when that does not give the model's answer, try the specification's
+    (an implementation that is right where the model is not must still compare equal to the specification)"""
+    a = snap(r, model, slack)
+    if a != model and spec is not None:
+        b = snap(r, spec, slack)
+        if b == spec:
+            return b
+    return a
+
+
 def conv_temps(d):
     out = []
     for k in sorted(d, key=os.fsencode):
@@ -164,8 +175,31 @@ def run(case, coq, env):
     import psutil
     psutil.PROCFS_PATH = _st["root"] + "/proc"
     k = case["kind"]
-    fn = globals()["run_" + k.replace("_raw", "")]
+    fn = globals()["run_" + k.replace("_raw", "").replace("_coretemp", "")]
     return fn(psutil, case, coq, k.endswith("_raw"))
+
+
+def put_temp_chips(t, chips, pe, prefix):
+    i = 0
+    for c in chips:
+        pre = prefix(c)
+        t.dirs.add(pre)
+        for s in c["sensors"]:
+            if not visible(s, ("input", "max", "crit", "label")):
+                continue
+            inp, name, mx, cr, lab = pe[i]
+            i += 1
+            base = pre + "temp%d" % s["n"]
+            if s["other"]:
+                t.put(base + "_min", ["C", "0\n"])
+            t.put(base + "_input", inp)
+            t.put(base + "_max", mx)
+            t.put(base + "_crit", cr)
+            t.put(base + "_label", lab)
+            t.put(pre + "name", name)
+        if c["name"][0] != "A" and pre + "name" not in t.files:
+            t.put(pre + "name", ["C", c["name"][1] + "\n"] if c["name"][0] == "P" else ["E"])
+    assert i == len(pe), (i, len(pe))
 
 
 def run_temps(psutil, case, coq, raw):
@@ -190,27 +224,10 @@ def run_temps(psutil, case, coq, raw):
                 t.put("%s/trip_point_%d_temp" % (zp, tr["idx"]), tr["temp"])
                 t.put("%s/trip_point_%d_hyst" % (zp, tr["idx"]), ["C", "0\n"])
     else:
-        pe, pz = coq["printed"]
-        i = 0
-        for c in sorted_temp_chips(case["chips"]):
-            pre = chip_prefix(c)
-            t.dirs.add(pre)
-            for s in c["sensors"]:
-                if not visible(s, ("input", "max", "crit", "label")):
-                    continue
-                inp, name, mx, cr, lab = pe[i]
-                i += 1
-                base = pre + "temp%d" % s["n"]
-                if s["other"]:
-                    t.put(base + "_min", ["C", "0\n"])
-                t.put(base + "_input", inp)
-                t.put(base + "_max", mx)
-                t.put(base + "_crit", cr)
-                t.put(base + "_label", lab)
-                t.put(pre + "name", name)
-            if c["name"][0] != "A" and pre + "name" not in t.files:
-                t.put(pre + "name", ["C", c["name"][1] + "\n"] if c["name"][0] == "P" else ["E"])
-        assert i == len(pe), (i, len(pe))
+        pe, pz = coq["printed"][0], coq["printed"][1]
+        put_temp_chips(t, sorted_temp_chips(case["chips"]), pe, lambda c: chip_prefix(c))
+        if case["kind"] == "temps_coretemp":
+            put_temp_chips(t, sorted_temp_chips(case["plat"]), coq["printed"][2], lambda c: chip_prefix(c))
         for z, p in zip(sorted_zones(case["zones"]), pz):
             zp = "%s/thermal_zone%d" % (TZ, z["idx"])
             t.dirs.add(zp)
@@ -221,7 +238,7 @@ def run_temps(psutil, case, coq, raw):
                 t.put("%s/trip_point_%d_temp" % (zp, tr["idx"]), pt[1])
     t.write()
     r = outcome(lambda: psutil.sensors_temperatures(fahrenheit=case["fahr"]), conv_temps)
-    return snap(r, coq["model"])
+    return snap_best(r, coq["model"], coq.get("spec"))
 
 
 def run_fans(psutil, case, coq, raw):
@@ -235,26 +252,21 @@ def run_fans(psutil, case, coq, raw):
             t.put(e["namepath"], e["name"])
     else:
         pe = coq["printed"]
-        eff = fans_effective(case["chips"])
         i = 0
         for c in sorted_fan_chips(case["chips"]):
             pre = chip_prefix(c)
             t.dirs.add(pre)
-            for s in c["fans"]:
-                if not visible(s, ("input", "label")):
+            for f in c["fans"]:
+                if not visible(f, ("input", "label")):
                     continue
-                base = pre + "fan%d" % s["n"]
-                if s["other"]:
+                base = pre + "fan%d" % f["n"]
+                if f["other"]:
                     t.put(base + "_min", ["C", "0\n"])
-                if c in eff or any(c["dir"] == e["dir"] for e in eff):
-                    inp, name, lab = pe[i]
-                    i += 1
-                    t.put(base + "_input", inp)
-                    t.put(base + "_label", lab)
-                    t.put(pre + "name", name)
-                else:  # chips the implementation must not look at (mixed nesting): plain files
-                    t.put(base + "_input", ["C", "777\n"])
-                    t.put(pre + "name", ["C", "ignored\n"])
+                inp, name, lab = pe[i]
+                i += 1
+                t.put(base + "_input", inp)
+                t.put(base + "_label", lab)
+                t.put(pre + "name", name)
         assert i == len(pe), (i, len(pe))
     t.write()
     return outcome(psutil.sensors_fans, conv_fans)
@@ -285,7 +297,7 @@ def run_battery(psutil, case, coq, raw):
             t.put(PS + "/AC/online", ac)
     t.write()
     r = outcome(psutil.sensors_battery, conv_battery)
-    r = snap(r, coq["model"])
+    r = snap_best(r, coq["model"], coq.get("spec"))
     # int(now / power * 3600) is a truncation of a double: accept the neighbouring integer when the exact
     # value is (within rounding) an integer
     m = coq["model"]
@@ -329,7 +341,8 @@ def run_cpufreq(psutil, case, coq, raw):
     mean = outcome(lambda: psutil.cpu_freq(), conv_freq)
     # cpuinfo-sourced current frequency goes through int(float * 1000): up to 1 kHz below the exact value
     slack = Fraction(1, 1000) if case.get("cls") in ("cpufreq-sysfs-cpuinfo-cur", "cpufreq-raw") else 0
-    return [snap(percpu, coq["model"][0], slack), snap(mean, coq["model"][1], slack)]
+    sp = coq.get("spec") or [None, None]
+    return [snap_best(percpu, coq["model"][0], sp[0], slack), snap_best(mean, coq["model"][1], sp[1], slack)]
 
 
 def run_cpucount(psutil, case, coq, raw):
@@ -372,4 +385,4 @@ def run_stat(psutil, case, coq, raw):
         return [s.ctx_switches, s.interrupts, s.soft_interrupts, s.syscalls]
     a = outcome(psutil.cpu_stats, conv_stats)
     b = outcome(psutil.boot_time, fl)
-    return [a, snap(b, coq["model"][1])]
+    return [a, snap_best(b, coq["model"][1], (coq.get("spec") or [None, None])[1])]
